@@ -221,7 +221,7 @@ def active_targets(d: dict) -> typing.List[str]:
     return t
 
 
-def gen_history(rng, mode: str, pool: typing.List[dict], fresh: Fresh, max_len: int) -> dict:
+def gen_history(rng, mode: str, pool: typing.List[dict], fresh: Fresh, max_len: int, dir_at_copy_ok: bool = False) -> dict:
     ok_pool = [c for c in pool if (mode != 'plain' or not c['extra'])]
     with_extra = [c for c in ok_pool if c['extra']]
     classes = [rng.choice(with_extra if (with_extra and rng.random() < 0.6) else ok_pool) for _ in range(rng.choice([1, 2, 2, 3]))]
@@ -240,7 +240,7 @@ def gen_history(rng, mode: str, pool: typing.List[dict], fresh: Fresh, max_len: 
     copy_targets = {p for c in classes for p, k in fresh.get(c)['describe']['support'] if not k}
     if all_targets and rng.random() < 0.10:
         t = rng.choice(all_targets)
-        if t not in used and t not in copy_targets and not any(u.startswith(t + '/') for u in used):
+        if t not in used and (dir_at_copy_ok or t not in copy_targets) and not any(u.startswith(t + '/') for u in used):
             pre.append({'path': t, 'kind': 'dir', 'mode': rng.choice([0o755, 0o555, 0o500]), 'owned': True})
             used.add(t)
     if rng.random() < 0.08:
@@ -259,6 +259,18 @@ def gen_history(rng, mode: str, pool: typing.List[dict], fresh: Fresh, max_len: 
     for _ in range(rng.randint(1, max_len)):
         steps.append({'cls': rng.randrange(len(classes)), 'file_mode': rng.choice(FILE_MODES),
                       'no_overwrite': rng.random() < 0.25, 'dry_run': rng.random() < 0.07})
+    if mode != 'plain':
+        for st in steps:
+            d = fresh.get(classes[st['cls']])['describe']
+            tg = active_targets(d)
+            if tg and rng.random() < 0.15:
+                idx = rng.randrange(len(tg))
+                kinds = dict((p, k) for p, k in d['support'])
+                plain_copy = kinds.get(tg[idx], True) is False and not d['line_pps'][0]
+                st['crash'] = {'idx': idx, 'path': tg[idx],
+                               'phase': rng.choice(['before_open', 'after_open'] + ([] if plain_copy else ['before_final_chmod']))}
+                st['no_overwrite'] = False
+                st['dry_run'] = False
     return {'mode': mode, 'classes': classes, 'pre': pre, 'rodirs': rodirs, 'steps': steps}
 
 
@@ -299,8 +311,12 @@ def run_history_impl(h: dict, workdir: str, nsdir: str, extra: str) -> typing.Li
                 doc['extra_support'] = extra
             if h['mode'] == 'nonroot':
                 doc['nonroot'] = {'root': outdir, 'not_owned': not_owned}
+            if st.get('crash'):
+                doc['crash'] = {'path': st['crash']['path'], 'phase': st['crash']['phase']}
             r = run_harness(doc)
-            if 'harness_error' in r or 'rc' not in r:
+            if r.get('crashed'):
+                rc, detail = 'crash', ''
+            elif 'harness_error' in r or 'rc' not in r:
                 rc, detail = 'harness', str(r.get('harness_error'))[-300:]
             elif r['rc'] == 0:
                 rc, detail = 'ok', ''
@@ -337,8 +353,18 @@ def can_create(rel: str, start: dict, nonroot: bool) -> bool:
     return bool(nearest_mode & 0o200) if nonroot else True
 
 
+EMPTY_SHA = hashlib.sha256(b'').hexdigest()
+EXTRA_NAME = 'extra_helper.h'
+CRASH_ACTS = {'before_open': (2, False), 'after_open': (2, True), 'before_final_chmod': (3, False)}
+
+
+def parents(rel: str) -> typing.List[str]:
+    parts = rel.split('/')
+    return ['/'.join(parts[:i]) for i in range(1, len(parts))]
+
+
 def model_line(h: dict, fresh: Fresh, start: dict, umask: int):
-    """-> (driver input line, universe list, foreign content table)"""
+    """-> (driver input line, universe list, foreign content table, class keys)"""
     uni: typing.List[str] = []
 
     def pid(rel: str) -> int:
@@ -347,17 +373,25 @@ def model_line(h: dict, fresh: Fresh, start: dict, umask: int):
         return uni.index(rel) + 1
 
     descs = [fresh.get(c)['describe'] for c in h['classes']]
+    children = {}
     for d in descs:
-        for p, _ in d['support']:
+        for p, k in d['sersup'] + d['typesup']:
             pid(p)
+            if not k:
+                children[p] = p + '/' + EXTRA_NAME
         for p in d['types']:
             pid(p)
     for e in h['pre']:
         pid(e['path'])
     for rel, e in start.items():
-        if e[0] == 'f':
+        if rel != '.':
             pid(rel)
-    foreign: typing.List[str] = []
+    for c in children.values():
+        pid(c)
+    for rel in list(uni):
+        for a in parents(rel):
+            pid(a)
+    foreign: typing.List[str] = [EMPTY_SHA]
     files = []
     owned = {e['path']: e.get('owned', True) for e in h['pre']}
     for rel in list(uni):
@@ -371,21 +405,29 @@ def model_line(h: dict, fresh: Fresh, start: dict, umask: int):
                 foreign.append(e[1])
             files.append('%d:%d:%d:%d:0' % (pid(rel), foreign.index(e[1]) + 1, e[2], 1 if owned.get(rel, True) else 0))
     nonroot = h['mode'] == 'nonroot'
-    nocreate = [str(pid(rel)) for rel in list(uni) if not can_create(rel, start, nonroot)]
+    rootw = bool(start['.'][2] & 0o200) if nonroot else True
+    anc = ['%d=%s' % (pid(rel), '+'.join(str(pid(a)) for a in parents(rel))) for rel in list(uni) if parents(rel)]
+    chl = ['%d=%d' % (pid(p), pid(c)) for p, c in children.items()]
     keys = sorted({class_key(c) for c in h['classes']})
-    cfgs = []
+    evs = []
     for st in h['steps']:
         cl = h['classes'][st['cls']]
         d = fresh.get(cl)['describe']
         fm = 0o444 if st['file_mode'] is None else st['file_mode']
         resmode = d['res_modes'][-1] if d['res_modes'] else 0o644
-        cfgs.append('/'.join([
+        cfg = '/'.join([
             str(keys.index(class_key(cl)) + 1), '0' if st['no_overwrite'] else '1', '1' if st['dry_run'] else '0',
-            '1' if d['line_pps'][0] else '0', str(fm), '1' if d['gen_support'] else '0', '1' if d['gen_types'] else '0',
-            '+'.join('%d:%d' % (pid(p), 1 if k else 0) for p, k in d['support']) or '-',
-            '+'.join(str(pid(p)) for p in d['types']) or '-', str(resmode)]))
-    line = ' '.join(['0' if nonroot else '1', str(umask), ','.join(nocreate) or '-', ','.join(files) or '-',
-                     ','.join(str(i + 1) for i in range(len(uni))) or '-'] + cfgs)
+            '1' if d['line_pps'][0] else '0', str(fm), (d['gensup'] or 'as-needed').replace('-', ''), '1' if d['omit'] else '0',
+            '+'.join('%d:%d' % (pid(p), 1 if k else 0) for p, k in d['sersup']) or '-',
+            '+'.join('%d:%d' % (pid(p), 1 if k else 0) for p, k in d['typesup']) or '-',
+            '+'.join(str(pid(p)) for p in d['types']) or '-', str(resmode)])
+        if st.get('crash'):
+            j, junk = CRASH_ACTS[st['crash']['phase']]
+            evs.append('C:%d:%d:%s/%s' % (st['crash']['idx'], j, '1' if junk else '-', cfg))
+        else:
+            evs.append('R/' + cfg)
+    line = ' '.join(['0' if nonroot else '1', str(umask), '1' if rootw else '0', ','.join(anc) or '-', ','.join(chl) or '-',
+                     ','.join(files) or '-', ','.join(str(i + 1) for i in range(len(uni))) or '-'] + evs)
     return line, uni, foreign, keys
 
 
@@ -414,7 +456,7 @@ def compare_model(h, fresh, impl, msteps, uni, foreign, keys) -> typing.Optional
     cls_of_key = {class_key(c): c for c in h['classes']}
     for i, (mrc, mstate) in enumerate(msteps, 1):
         real = impl[i]
-        if real['rc'] != mrc:
+        if mrc != 'crash' and real['rc'] != mrc:
             return {'step': i, 'what': 'result', 'model': mrc, 'impl': real['rc'], 'detail': real['detail']}
         for rel in uni:
             m, e = mstate.get(rel), real['snap'].get(rel)
@@ -431,16 +473,24 @@ def compare_model(h, fresh, impl, msteps, uni, foreign, keys) -> typing.Optional
                 okc = foreign[cid - 1] == e[1]
             else:
                 cl = cls_of_key[keys[(cid - GEN_BASE) // 10000 - 1]]
-                okc = uni[(cid - GEN_BASE) % 10000 - 1] == rel and fresh.matches(cl, rel, e)
+                src_rel = rel[:-len(EXTRA_NAME) - 1] if rel.endswith('/' + EXTRA_NAME) else rel   # shutil.copy into a directory
+                okc = uni[(cid - GEN_BASE) % 10000 - 1] == rel and fresh.matches(cl, src_rel, e)
             if not okc:
                 return {'step': i, 'what': 'content', 'path': rel, 'model': m, 'impl': e[:3]}
-        extra = [rel for rel, e in real['snap'].items() if e[0] == 'f' and rel not in uni]
+        extra = [rel for rel, e in real['snap'].items() if rel != '.' and rel not in uni]
         if extra:
             return {'step': i, 'what': 'file outside the modelled universe', 'path': extra[0]}
     return None
 
 
-def oracle(h: dict, fresh: Fresh, impl: typing.List[dict]) -> typing.Optional[dict]:
+def copy_dir_trigger(d: dict, prev: dict) -> typing.List[str]:
+    """targets written with shutil.copy at which a directory sits (trigger of F-COPY-INTO-DIR)"""
+    if d['line_pps'][0] or not d['gen_support']:
+        return []
+    return [p for p, k in d['support'] if not k and p in prev and prev[p][0] == 'd']
+
+
+def oracle(h: dict, fresh: Fresh, impl: typing.List[dict], kf_live: bool = False, kf_hits: typing.Optional[list] = None) -> typing.Optional[dict]:
     """the property itself, checked on the implementation's snapshots only (no model involved)"""
     start = dict(impl[0]['snap'])
     nonroot = h['mode'] == 'nonroot'
@@ -451,17 +501,26 @@ def oracle(h: dict, fresh: Fresh, impl: typing.List[dict]) -> typing.Optional[di
         tg = active_targets(d)
         prev, cur, rc = impl[i - 1]['snap'], impl[i]['snap'], impl[i]['rc']
         fm = (0o444 if st['file_mode'] is None else st['file_mode']) & 0o7777
+        trig = copy_dir_trigger(d, prev) if kf_live else []
+        if trig and kf_hits is not None:
+            kf_hits.append((i, trig[0]))
         for rel in set(prev) | set(cur):
             if rel in tg or (cur.get(rel) or prev.get(rel))[0] == 'd':
                 continue
+            if any(rel == t + '/' + EXTRA_NAME for t in trig):
+                continue    # known finding: the copy landed inside the directory
             if not same_entry(prev.get(rel), cur.get(rel)):
                 return {'step': i, 'law': 'foreign_untouched', 'path': rel, 'before': prev.get(rel) and prev[rel][:3], 'after': cur.get(rel) and cur[rel][:3]}
+        if st.get('crash'):
+            continue        # an interrupted run promises nothing but the footprint; the next complete run is checked as usual
         if st['dry_run']:
             if rc != 'ok' or any(not same_entry(prev.get(r), cur.get(r)) for r in set(prev) | set(cur)):
                 return {'step': i, 'law': 'dry_run_changes_nothing', 'rc': rc}
             continue
         if rc == 'ok':
             for rel in tg:
+                if rel in trig:
+                    continue
                 e = cur.get(rel)
                 if e is None or e[0] != 'f' or not fresh.matches(cl, rel, e):
                     return {'step': i, 'law': 'regen_canonical(content)', 'path': rel, 'after': e and e[:3]}
@@ -546,6 +605,22 @@ def main(chk: core.Check, replay: typing.Optional[str] = None) -> int:
     if not ok_model:
         broken.append('model does not build/extract: ' + log[-300:])
 
+    # probe of the (candidate) finding F-COPY-INTO-DIR: a directory at the target of a copied support file
+    probe_out = os.path.join(base, 'probe')
+    os.makedirs(os.path.join(probe_out, 'nunavut', 'support', 'extra_helper.hpp'))
+    pr = run_harness({'argv': ['--target-language', 'cpp', '--experimental-languages', '--outdir', probe_out, os.path.join(nsdir, 'ns')],
+                      'extra_support': extra})
+    copy_into_dir_reproduces = pr.get('rc') == 0 and os.path.isfile(os.path.join(probe_out, 'nunavut', 'support', 'extra_helper.hpp', EXTRA_NAME))
+    for root, dirs, _ in os.walk(probe_out):
+        for n in dirs:
+            os.chmod(os.path.join(root, n), 0o755)
+    shutil.rmtree(probe_out, ignore_errors=True)
+    kf_live = False
+    if chk.is_known('F-COPY-INTO-DIR') and copy_into_dir_reproduces:
+        kf_live = True
+        chk.report_known('F-COPY-INTO-DIR')
+    kf_hits: typing.List[tuple] = []
+
     # 2. histories
     fresh = Fresh(base, nsdir, extra)
     if replay:
@@ -569,7 +644,7 @@ def main(chk: core.Check, replay: typing.Optional[str] = None) -> int:
         for i in range(n_hist):
             mode = ['plain', 'plain', 'plain', 'shim', 'nonroot', 'nonroot'][i % 6]
             ml = max_len if (quick or i % 4 == 0) else 8
-            hs.append(gen_history(rng, mode, pool, fresh, ml))
+            hs.append(gen_history(rng, mode, pool, fresh, ml, dir_at_copy_ok=kf_live))
         if bad_fresh and (not pool or any('SystemExit: 2' not in str(fresh.get(c).get('harness_error')) for c in bad_fresh)):
             broken.append('reference run into an empty directory failed: %s %s' % (class_key(bad_fresh[0]), str(fresh.get(bad_fresh[0]))[:300]))
 
@@ -583,7 +658,7 @@ def main(chk: core.Check, replay: typing.Optional[str] = None) -> int:
     stats = {'histories': len(hs), 'steps': 0, 'plain_nnvg_steps': 0, 'shim_root_steps': 0, 'nonroot_emulated_steps': 0,
              'no_overwrite_steps': 0, 'no_overwrite_conflicts': 0, 'dry_run_steps': 0, 'failed_runs_other': 0,
              'overwrites_of_readonly_files': 0, 'overwrites_of_existing_files': 0, 'copy_header_writes': 0,
-             'shutil_copy_writes': 0, 'dir_at_target': 0, 'blocked_parent': 0, 'readonly_dirs': 0, 'not_owned_files': 0,
+             'shutil_copy_writes': 0, 'interrupted_runs': 0, 'dir_at_target': 0, 'blocked_parent': 0, 'readonly_dirs': 0, 'not_owned_files': 0,
              'langs': {}, 'max_history_len': 0, 'content_classes': len(fresh.by_key)}
     distinct = set()
     model_bad, oracle_bad = [], []
@@ -614,6 +689,7 @@ def main(chk: core.Check, replay: typing.Optional[str] = None) -> int:
             stats['steps'] += 1
             stats[{'plain': 'plain_nnvg_steps', 'shim': 'shim_root_steps', 'nonroot': 'nonroot_emulated_steps'}[h['mode']]] += 1
             stats['langs'][cl['lang']] = stats['langs'].get(cl['lang'], 0) + 1
+            stats['interrupted_runs'] += impl[i]['rc'] == 'crash'
             stats['no_overwrite_steps'] += st['no_overwrite']
             stats['dry_run_steps'] += st['dry_run']
             stats['no_overwrite_conflicts'] += impl[i]['rc'] == 'exists'
@@ -630,7 +706,7 @@ def main(chk: core.Check, replay: typing.Optional[str] = None) -> int:
             if (impl[i]['rc'] != 'ok' or any(t in prev for t in tg)) and not st['dry_run']:
                 distinct.add(json.dumps([class_key(cl), st['file_mode'], st['no_overwrite'], impl[i]['rc'],
                                          sorted((r, e[1], e[2]) for r, e in prev.items() if r in tg)], sort_keys=True))
-        ob = oracle(h, fresh, impl)
+        ob = oracle(h, fresh, impl, kf_live, kf_hits)
         if ob:
             oracle_bad.append((k, ob))
         if mouts and k < len(mouts) and not mouts[k].startswith('ERR'):
@@ -664,6 +740,8 @@ def main(chk: core.Check, replay: typing.Optional[str] = None) -> int:
         'distribution': stats,
         'superuser': is_root,
         'umask': umask,
+        'copy_into_dir_reproduces': copy_into_dir_reproduces,
+        'known_finding_instances': len(kf_hits),
     })
     chk.notes.append('effective uid %d: the correspondence of plain nnvg histories is checked with superuser=%s in the model; '
                      'the superuser=false model is tied only through the harness-side permission shim (nonroot histories)'
@@ -676,10 +754,10 @@ def main(chk: core.Check, replay: typing.Optional[str] = None) -> int:
 
         def failing(hh):
             im = run_history_impl(hh, os.path.join(base, 'shr-%d' % (time.time_ns() % 1000000)), nsdir, extra)
-            return oracle(hh, fresh, im) is not None
+            return oracle(hh, fresh, im, kf_live) is not None
         small = shrink_history(hs[k], failing)
         im = run_history_impl(small, os.path.join(base, 'shr-final'), nsdir, extra)
-        chk.violation({'history': slim(small), 'original_history': slim(hs[k]), 'violated': oracle(small, fresh, im) or ob,
+        chk.violation({'history': slim(small), 'original_history': slim(hs[k]), 'violated': oracle(small, fresh, im, kf_live) or ob,
                        'what': 'the real generator violates the property on this history', 'broken': broken,
                        'n_failing_histories': len(oracle_bad),
                        'steps_argv': [step_argv(s, small['classes'][s['cls']], '<dsdl>', '<out>') for s in small['steps']]}, found_input=True)
